@@ -19,4 +19,24 @@ theorem extras_sublist {α : Type} [DecidableEq α] : ∀ (a b e : List α), ext
       obtain ⟨h1, h2, h3⟩ := extras_sublist (x :: a) b e' he'
       exact ⟨h1.cons _, h2.cons_cons _, by simp [h3]; omega⟩
 
+theorem extrasP_extras {α : Type} [DecidableEq α] : ∀ (p : Option α) (a b : List α) (e : List (Option α × α)),
+    extrasP p a b = some e → extras a b = some (e.map (·.2))
+  | _, [], [], e, h => by simp [extrasP] at h; subst h; simp [extras]
+  | p, [], y :: b, e, h => by
+    simp only [extrasP, Option.map_eq_some_iff] at h
+    obtain ⟨e', he', rfl⟩ := h
+    have := extrasP_extras (some y) [] b e' he'
+    simp [extras] at this ⊢
+    exact this
+  | _, _ :: _, [], e, h => by simp [extrasP] at h
+  | p, x :: a, y :: b, e, h => by
+    unfold extrasP at h
+    unfold extras
+    by_cases hxy : x = y
+    · simp only [hxy, if_true] at h ⊢
+      exact extrasP_extras _ _ _ _ h
+    · simp only [hxy, if_false, Option.map_eq_some_iff] at h ⊢
+      obtain ⟨e', he', rfl⟩ := h
+      exact ⟨e'.map (·.2), extrasP_extras _ _ _ _ he', by simp⟩
+
 end Vsgm.Lemmas
